@@ -273,7 +273,7 @@ def runCase (line : String) : String :=
   | ["rex", enc, inp] => Rex.run enc inp
   | ["rexs", d, inp] => Rex.runScan (parseDelims d) inp
   | ["tw", ops] =>
-    let os := if ops == "-" then [] else (ops.splitOn ",").filterMap WOp.parse
+    let os := if ops == "-" then [] else (ops.splitOn ",").flatMap WOp.parseOps
     showCalls (writeCalls os)
   | ["eparse", kind, src] =>
     showStmt kind (parseSource (selectorOf kind ++ hexDecode src))
